@@ -465,7 +465,8 @@ def run(tier, seed):
     done = 0
     chunk = 32 if tier == "quick" else 256
     pending_min = []
-    while done < n and time.time() - t0 < budget:
+    t_loop = time.time()      # the budget covers the workload, not the (possibly cold) builds before it
+    while done < n and time.time() - t_loop < budget:
         jobs = [(seed, i, work) for i in range(done, min(n, done + chunk))]
         done += len(jobs)
         for v in C.pmap(run_case, jobs):
